@@ -134,7 +134,7 @@ Qed.
 Lemma vec_tagged_next ls e u tg (xs : list value) (gs : list bytes) :
   length xs = length gs ->
   (forall k x g, nth_error xs k = Some x -> nth_error gs k = Some g -> g <> [] /\ exact_strict ls e u (Some tg) x g) ->
-  (forall fuel r, next_ok tg r -> exists er, dec fuel ls e u (Some tg) r = Err er) ->
+  (forall fuel r, (depth u <= fuel)%nat -> next_ok tg r -> exists er, dec fuel ls e u (Some tg) r = Err er) ->
   exact_next ls e (TVec u) tg (VList xs) (concat gs).
 Proof.
   intros Hl He Hfail. split.
@@ -147,7 +147,7 @@ Proof.
     rewrite (vec_loop_elements (dec f ls e u (Some tg)) xs gs r (S (length (concat gs ++ r))) []); try assumption.
     + reflexivity.
     + intros k x g H1 H2. destruct (He k x g H1 H2) as [Hne [_ Hd]]. split; [exact Hne|]. intros rest. apply Hd. lia.
-    + apply Hfail. exact Hn.
+    + apply Hfail; [lia|exact Hn].
     + (* every element has at least one byte *)
       assert (G : (length xs <= length (concat gs))%nat).
       { clear -Hl He. revert gs Hl He. induction xs as [|x xs IH]; intros gs Hl He; [cbn; lia|].
@@ -176,4 +176,205 @@ Proof.
   destruct u as [p|u|u|fs]; try contradiction.
   - destruct (framed_fails_on_other_tag ls tg (prim_dec e p) r Hn) as [er H]. exists er. left. exact H.
   - subst e. destruct (framed_fails_on_other_tag ls tg (dec_struct_with (dec f) fs) r Hn) as [er H]. exists er. left. exact H.
+Qed.
+
+(* ================================================================== the struct level *)
+
+
+Lemma untagged_app pfs tfs : forallb untagged_field pfs = true -> forallb (fun f => negb (untagged_field f)) tfs = true ->
+  untagged (pfs ++ tfs) = pfs.
+Proof.
+  intros Hp Ht. unfold untagged. rewrite filter_app.
+  assert (A : filter (fun f => match f_tag f with None => true | Some _ => false end) pfs = pfs).
+  { clear -Hp. induction pfs as [|f pfs IH]; [reflexivity|]. cbn [forallb] in Hp. apply andb_prop in Hp. destruct Hp as [H1 H2].
+    cbn [filter]. unfold untagged_field in H1. rewrite H1, (IH H2). reflexivity. }
+  assert (B : filter (fun f => match f_tag f with None => true | Some _ => false end) tfs = []).
+  { clear -Ht. induction tfs as [|f tfs IH]; [reflexivity|]. cbn [forallb] in Ht. apply andb_prop in Ht. destruct Ht as [H1 H2].
+    cbn [filter]. unfold untagged_field in H1. destruct (f_tag f); [apply IH; exact H2|discriminate]. }
+  rewrite A, B. apply app_nil_r.
+Qed.
+
+Lemma find_tagged_skip pfs : forallb untagged_field pfs = true -> forall l t i,
+  find_tagged (pfs ++ l) t i = find_tagged l t (i + length pfs)%nat.
+Proof.
+  induction pfs as [|f pfs IH]; intros Hp l t i; [cbn; f_equal; lia|].
+  cbn [forallb] in Hp. apply andb_prop in Hp. destruct Hp as [H1 H2]. unfold untagged_field in H1.
+  cbn [app find_tagged]. destruct (f_tag f); [discriminate|]. rewrite (IH H2). f_equal. cbn [length]. lia.
+Qed.
+
+
+Lemma find_tagged_unique tfs : NoDup (tags_of tfs) -> forall k f t i,
+  nth_error tfs k = Some f -> f_tag f = Some t -> find_tagged tfs t i = Some ((i + k)%nat, f).
+Proof.
+  induction tfs as [|g tfs IH]; intros Hnd k f t i Hn Ht; [destruct k; discriminate|].
+  cbn [find_tagged]. destruct k as [|k].
+  - injection Hn as ->. rewrite Ht, N.eqb_refl. do 2 f_equal. lia.
+  - cbn [nth_error] in Hn. unfold tags_of in Hnd. cbn [flat_map] in Hnd. destruct (f_tag g) as [tg|] eqn:Eg.
+    + cbn [app] in Hnd. inversion Hnd as [|? ? Hnotin Hnd']; subst.
+      destruct (tg =? t) eqn:E.
+      * exfalso. apply Hnotin. assert (tg = t) by lia. subst. apply in_flat_map. exists f. split; [eapply nth_error_In; exact Hn|].
+        rewrite Ht. left. reflexivity.
+      * rewrite (IH Hnd' k f t (S i) Hn Ht). do 2 f_equal. lia.
+    + cbn [app] in Hnd. rewrite (IH Hnd k f t (S i) Hn Ht). do 2 f_equal. lia.
+Qed.
+
+(* a tagged slot: the field, its value, and its bytes on the wire if it is present *)
+Definition tslot := (field * value * option bytes)%type.
+
+Fixpoint groups_from (k : nat) (ts : list tslot) : list group :=
+  match ts with
+  | [] => []
+  | (f, v, Some g) :: r =>
+      {| g_idx := k; g_tag := match f_tag f with Some t => t | None => 0 end; g_val := v; g_bytes := g |} :: groups_from (S k) r
+  | (_, _, None) :: r => groups_from (S k) r
+  end.
+
+Lemma set_nth_app_here {A} (pre : list A) d rest v : set_nth (pre ++ d :: rest) (length pre) v = pre ++ v :: rest.
+Proof. induction pre as [|x pre IH]; [reflexivity|]. cbn [app length set_nth]. rewrite IH. reflexivity. Qed.
+
+Lemma apply_groups_slots : forall (ts : list tslot) (pre : list value),
+  (forall f v, In (f, v, None) ts -> v = default_value (f_ty f)) ->
+  apply_groups (pre ++ map (fun s => default_value (f_ty (fst (fst s)))) ts) (groups_from (length pre) ts)
+    = pre ++ map (fun s => snd (fst s)) ts.
+Proof.
+  induction ts as [|[[f v] [g|]] ts IH]; intros pre Habs.
+  - cbn. reflexivity.
+  - cbn [map groups_from apply_groups fold_left g_idx g_val fst snd].
+    rewrite set_nth_app_here.
+    replace (pre ++ v :: map (fun s => default_value (f_ty (fst (fst s)))) ts)
+      with ((pre ++ [v]) ++ map (fun s => default_value (f_ty (fst (fst s)))) ts) by (rewrite <- app_assoc; reflexivity).
+    replace (S (length pre)) with (length (pre ++ [v])) by (rewrite app_length; cbn; lia).
+    change (fold_left (fun vs g0 => set_nth vs (g_idx g0) (g_val g0)) (groups_from (length (pre ++ [v])) ts)
+              ((pre ++ [v]) ++ map (fun s => default_value (f_ty (fst (fst s)))) ts))
+      with (apply_groups ((pre ++ [v]) ++ map (fun s => default_value (f_ty (fst (fst s)))) ts) (groups_from (length (pre ++ [v])) ts)).
+    rewrite IH by (intros f' v' Hin; apply Habs; right; exact Hin). rewrite <- app_assoc. reflexivity.
+  - cbn [map groups_from fst snd].
+    rewrite (Habs f v (or_introl eq_refl)).
+    replace (pre ++ default_value (f_ty f) :: map (fun s => default_value (f_ty (fst (fst s)))) ts)
+      with ((pre ++ [default_value (f_ty f)]) ++ map (fun s => default_value (f_ty (fst (fst s)))) ts) by (rewrite <- app_assoc; reflexivity).
+    replace (S (length pre)) with (length (pre ++ [default_value (f_ty f)])) by (rewrite app_length; cbn; lia).
+    rewrite IH by (intros f' v' Hin; apply Habs; right; exact Hin). rewrite <- app_assoc. reflexivity.
+Qed.
+
+Lemma init_slots_app pfs tfs pos : forallb untagged_field pfs = true -> forallb (fun f => negb (untagged_field f)) tfs = true ->
+  length pos = length pfs ->
+  init_slots (pfs ++ tfs) pos = pos ++ map (fun f => default_value (f_ty f)) tfs.
+Proof.
+  revert pos. induction pfs as [|[nm tg ls e t] pfs IH]; intros pos Hp Ht Hl.
+  - destruct pos; [|discriminate]. cbn [app]. clear -Ht. induction tfs as [|[nm tg ls e t] tfs IH]; [reflexivity|].
+    cbn [forallb] in Ht. apply andb_prop in Ht. destruct Ht as [H1 H2]. unfold untagged_field in H1. cbn [f_tag] in H1.
+    destruct tg; [|discriminate]. cbn [init_slots map f_ty]. rewrite (IH H2). reflexivity.
+  - cbn [forallb] in Hp. apply andb_prop in Hp. destruct Hp as [H1 H2]. unfold untagged_field in H1. cbn [f_tag] in H1.
+    destruct tg; [discriminate|]. destruct pos as [|v pos]; [discriminate|]. cbn [app init_slots]. rewrite (IH pos H2 Ht); [reflexivity|cbn in Hl; lia].
+Qed.
+
+(* the bytes of the present tagged slots, in order *)
+Definition tbytes (ts : list tslot) : bytes := concat (map (fun s => match snd s with Some g => g | None => [] end) ts).
+
+Lemma gbytes_groups_from k ts : gbytes (groups_from k ts) = tbytes ts.
+Proof.
+  revert k. induction ts as [|[[f v] [g|]] ts IH]; intros k; [reflexivity| |].
+  - unfold gbytes, tbytes in *. cbn [groups_from map concat g_bytes snd]. f_equal. apply IH.
+  - unfold gbytes, tbytes in *. cbn [groups_from map concat snd app]. apply IH.
+Qed.
+
+Lemma groups_from_tags k ts t : In t (map g_tag (groups_from k ts)) ->
+  exists f v g, In (f, v, Some g) ts /\ t = match f_tag f with Some t => t | None => 0 end.
+Proof.
+  revert k. induction ts as [|[[f v] [g|]] ts IH]; intros k Hin; [destruct Hin| |].
+  - cbn [groups_from map g_tag] in Hin. destruct Hin as [<-|Hin].
+    + exists f, v, g. split; [left; reflexivity|reflexivity].
+    + destruct (IH _ Hin) as [f' [v' [g' [A B]]]]. exists f', v', g'. split; [right; exact A|exact B].
+  - cbn [groups_from] in Hin. destruct (IH _ Hin) as [f' [v' [g' [A B]]]]. exists f', v', g'. split; [right; exact A|exact B].
+Qed.
+
+Lemma groups_from_nodup : forall (ts : list tslot) k,
+  forallb (fun f => negb (untagged_field f)) (map (fun s : tslot => fst (fst s)) ts) = true ->
+  NoDup (tags_of (map (fun s : tslot => fst (fst s)) ts)) -> NoDup (map g_tag (groups_from k ts)).
+Proof.
+  induction ts as [|[[f v] og] ts IH]; intros k Ht Hnd; [constructor|].
+  cbn [map fst forallb] in Ht, Hnd. apply andb_prop in Ht. destruct Ht as [H1 H2].
+  unfold tags_of in Hnd. cbn [flat_map] in Hnd. unfold untagged_field in H1.
+  destruct (f_tag f) as [t|] eqn:Et; [|discriminate]. cbn [app] in Hnd. inversion Hnd as [|? ? Hnotin Hnd']; subst.
+  destruct og as [g|]; cbn [groups_from]; [|apply IH; assumption].
+  cbn [map g_tag]. rewrite Et. constructor; [|apply IH; assumption].
+  intros Hin. destruct (groups_from_tags _ _ _ Hin) as [f' [v' [g' [A B]]]]. apply Hnotin.
+  apply in_flat_map. exists f'. split.
+  - apply in_map_iff. exists (f', v', Some g'). split; [reflexivity|exact A].
+  - assert (Hf' : negb (untagged_field f') = true).
+    { rewrite forallb_forall in H2. apply H2. apply in_map_iff. exists (f', v', Some g'). split; [reflexivity|exact A]. }
+    unfold untagged_field in Hf'. destruct (f_tag f') as [t'|]; [|discriminate]. subst t. left. reflexivity.
+Qed.
+
+Lemma groups_from_present k ts f v g : In (f, v, Some g) ts -> forall t, f_tag f = Some t -> In t (map g_tag (groups_from k ts)).
+Proof.
+  revert k. induction ts as [|[[f' v'] [g'|]] ts IH]; intros k Hin t Ht; [destruct Hin| |].
+  - cbn [groups_from map g_tag]. destruct Hin as [E|Hin].
+    + injection E as -> -> ->. rewrite Ht. left. reflexivity.
+    + right. apply IH; assumption.
+  - cbn [groups_from]. destruct Hin as [E|Hin]; [discriminate|]. apply IH; assumption.
+Qed.
+
+(* THE struct lemma in declaration order: positional triples, then tagged slots (present or absent) *)
+Theorem dec_struct_slots D (ps : list (field * value * bytes)) (ts : list tslot) (tail : bytes) :
+  let pfs := map (fun x => fst (fst x)) ps in
+  let tfs := map (fun s : tslot => fst (fst s)) ts in
+  forallb untagged_field pfs = true -> forallb (fun f => negb (untagged_field f)) tfs = true ->
+  NoDup (tags_of tfs) ->
+  tail_ok (pfs ++ tfs) tail ->
+  pos_ok D ps (tbytes ts ++ tail) ->
+  (* every present tagged slot is a well-formed group *)
+  (forall k f v g, nth_error ts k = Some (f, v, Some g) ->
+     exists nm t ls e ty, f = Fld nm (Some t) ls e ty /\
+       (forall r, exists rest, tag_dec false (g ++ r) = Ok (t, rest)) /\
+       (forall r, next_ok t r -> D ls e ty (Some t) (g ++ r) = Ok (v, r))) ->
+  (* every absent one is optional and holds the default *)
+  (forall f v, In (f, v, None) ts -> v = default_value (f_ty f) /\ is_optional (f_ty f) = true) ->
+  dec_struct_with D (pfs ++ tfs) (concat (map snd ps) ++ tbytes ts ++ tail)
+    = Ok (VRec (map (fun x => snd (fst x)) ps ++ map (fun s : tslot => snd (fst s)) ts), tail).
+Proof.
+  intros pfs tfs Hp Ht Hnd Htail Hpos Hpres Habs.
+  set (pre := map (fun x : field * value * bytes => snd (fst x)) ps).
+  assert (Hlen : length pre = length pfs) by (unfold pre, pfs; rewrite !map_length; reflexivity).
+  pose proof (gbytes_groups_from (length pre) ts) as Hgb.
+  pose proof (dec_struct_groups D (pfs ++ tfs) ps (groups_from (length pre) ts) tail) as T.
+  rewrite Hgb in T.
+  rewrite T.
+  - f_equal. f_equal. f_equal. fold pre.
+    rewrite init_slots_app; try assumption.
+    unfold tfs. rewrite map_map.
+    apply apply_groups_slots. intros f v Hin. apply (Habs f v Hin).
+  - rewrite untagged_app by assumption. reflexivity.
+  - exact Hpos.
+  - (* group_ok for every generated group *)
+    rewrite Hlen. clear T Hgb.
+    assert (G : forall ts' k0, (forall k f v g, nth_error ts' k = Some (f, v, Some g) -> nth_error ts (k0 + k) = Some (f, v, Some g)) ->
+              Forall (group_ok D (pfs ++ tfs)) (groups_from (length pfs + k0) ts')).
+    { induction ts' as [|[[f v] [g|]] ts' IH]; intros k0 Hsub; [constructor| |].
+      - cbn [groups_from]. constructor.
+        + pose proof (Hsub 0%nat f v g eq_refl) as Hn. rewrite Nat.add_0_r in Hn.
+          destruct (Hpres k0 f v g Hn) as [nm [t [ls [e [ty [-> [Htag Hdec]]]]]]].
+          exists nm, ls, e, ty. cbn [g_tag g_idx g_val g_bytes f_tag]. split; [|split; assumption].
+          rewrite (find_tagged_skip pfs Hp).
+          rewrite (find_tagged_unique tfs Hnd k0 (Fld nm (Some t) ls e ty) t (0 + length pfs)%nat).
+          * replace (0 + length pfs + k0)%nat with (length pfs + k0)%nat by lia. reflexivity.
+          * unfold tfs. rewrite nth_error_map, Hn. reflexivity.
+          * reflexivity.
+        + replace (S (length pfs + k0)) with (length pfs + S k0)%nat by lia. apply IH.
+          intros k f' v' g' H. replace (S k0 + k)%nat with (k0 + S k)%nat by lia. apply (Hsub (S k)). exact H.
+      - cbn [groups_from]. replace (S (length pfs + k0)) with (length pfs + S k0)%nat by lia. apply IH.
+        intros k f' v' g' H. replace (S k0 + k)%nat with (k0 + S k)%nat by lia. apply (Hsub (S k)). exact H. }
+    specialize (G ts 0%nat (fun k f v g H => H)). rewrite Nat.add_0_r in G. exact G.
+  - apply groups_from_nodup; assumption.
+  - exact Htail.
+  - (* all required tags are among the present ones *)
+    intros t Hin. unfold required_tags in Hin. apply in_flat_map in Hin. destruct Hin as [f [Hf Hin]].
+    apply in_app_or in Hf. destruct Hf as [Hf|Hf].
+    + rewrite forallb_forall in Hp. specialize (Hp f Hf). unfold untagged_field in Hp. destruct (f_tag f); [discriminate|destruct Hin].
+    + unfold tfs in Hf. apply in_map_iff in Hf. destruct Hf as [[[f' v] og] [E Hs]]. cbn [fst] in E. subst f'.
+      destruct (f_tag f) as [t'|] eqn:Et; [|destruct Hin].
+      destruct (is_optional (f_ty f)) eqn:Eo; [destruct Hin|]. destruct Hin as [<-|[]].
+      destruct og as [g|].
+      * eapply groups_from_present; eassumption.
+      * destruct (Habs f v Hs) as [_ Hopt]. congruence.
 Qed.
